@@ -143,6 +143,13 @@ def run(ctx: Ctx):
                     ctx.check(e2 is not None and pos.get(e2["x"]) in (1, 3), "BEL-4", po, d[-1] if d else c1[0][0], "a maximiser set = maximisers over the action axis of an action array of the solver", "", f"maximiser set `{pat.txt(mv)}` changed")
                     if e2:
                         srcs.add(pos.get(e2["x"]))
+                        # (written after seed C16-b) the tie test is absolute: rtol=0, so that it does not widen with the magnitude of the values
+                        icall = d[-1].value if d else mv
+                        while isinstance(icall, ast.Name) and icall.id in pat.fn_defs(po.node):
+                            icall = pat.fn_defs(po.node)[icall.id]
+                        rt = kwarg(icall, "rtol") if isinstance(icall, ast.Call) else None
+                        ctx.check(isinstance(rt, ast.Constant) and rt.value == 0, "BEL-4", po, icall, "maximiser ties are decided with an absolute tolerance (rtol=0)", "",
+                                  "np.isclose keeps its default relative tolerance: for large gains / values actions that are not maximisers are admitted to the policy")
                 ctx.check(srcs == {1, 3}, "BEL-4", po, c1[0][0], "one maximiser set is of the action gains, the other of the action values", str(srcs), "the two maximiser sets are not those of action gain and action bias")
     # kwargs forwarded to the solver
     kw = arg_texts(call[0])
